@@ -106,13 +106,13 @@ Definition ps_obs_read (la lt h : Z) : ps_prog (option ps_obs) :=
   end) end) end) end) end) end) end) end).
 
 Definition ps_obs_write (h : Z) (r : ps_obs) : ps_prog bool :=
-  ps_wr h (ob_key r) (fun ok => if negb ok then PsRet false else
-  ps_wr h (ob_proto r) (fun ok => if negb ok then PsRet false else
-  ps_wr h (ob_listen r) (fun ok => if negb ok then PsRet false else
-  ps_wr h (ob_tuple r) (fun ok => if negb ok then PsRet false else
-  ps_wr h (ps_enc_size (len (ob_pkt r))) (fun ok => if negb ok then PsRet false else
-  ps_wr h (ob_pkt r) (fun ok => if negb ok then PsRet false else
-  match ob_osc r with
+  ps_wr h (pso_key r) (fun ok => if negb ok then PsRet false else
+  ps_wr h (pso_proto r) (fun ok => if negb ok then PsRet false else
+  ps_wr h (pso_listen r) (fun ok => if negb ok then PsRet false else
+  ps_wr h (pso_tuple r) (fun ok => if negb ok then PsRet false else
+  ps_wr h (ps_enc_size (len (pso_pkt r))) (fun ok => if negb ok then PsRet false else
+  ps_wr h (pso_pkt r) (fun ok => if negb ok then PsRet false else
+  match pso_osc r with
   | Some o =>
       ps_wr h (ps_enc_size (len o)) (fun ok => if negb ok then PsRet false else
       ps_wr h o (fun ok => PsRet ok))
@@ -130,7 +130,7 @@ Fixpoint ps_obs_copy (la lt : Z) (fuel : nat) (ho hn : Z) (skip : bytes)
         match r with
         | None => PsRet (Some true)
         | Some r =>
-            if ps_beq (ob_key r) skip then ps_obs_copy la lt f ho hn skip
+            if ps_beq (pso_key r) skip then ps_obs_copy la lt f ho hn skip
             else ps_bind (ps_obs_write hn r) (fun ok =>
                    if ok then ps_obs_copy la lt f ho hn skip else PsRet (Some false))
         end)
@@ -138,7 +138,7 @@ Fixpoint ps_obs_copy (la lt : Z) (fuel : nat) (ho hn : Z) (skip : bytes)
 
 (* coap_op_observe_added *)
 Definition ps_obs_added (la lt : Z) (fuel : nat) (a : ps_obs) : ps_prog Z :=
-  ps_txn PS_OBS false 0 (fun ho hn => ps_obs_copy la lt fuel ho hn (ob_key a))
+  ps_txn PS_OBS false 0 (fun ho hn => ps_obs_copy la lt fuel ho hn (pso_key a))
          (fun hn => ps_obs_write hn a).
 
 (* coap_op_observe_deleted *)
@@ -201,12 +201,12 @@ Definition ps_dyn_read (h : Z) : ps_prog (option ps_dyn) :=
   end) end) end) end) end).
 
 Definition ps_dyn_write (h : Z) (r : ps_dyn) : ps_prog bool :=
-  ps_wr h (dy_proto r) (fun ok => if negb ok then PsRet false else
-  ps_wr h (ps_enc_size (len (dy_name r))) (fun ok => if negb ok then PsRet false else
-  (match dy_name r with [] => fun k => k true | _ => ps_wr h (dy_name r) end)
+  ps_wr h (psd_proto r) (fun ok => if negb ok then PsRet false else
+  ps_wr h (ps_enc_size (len (psd_name r))) (fun ok => if negb ok then PsRet false else
+  (match psd_name r with [] => fun k => k true | _ => ps_wr h (psd_name r) end)
     (fun ok => if negb ok then PsRet false else
-  ps_wr h (ps_enc_size (len (dy_pkt r))) (fun ok => if negb ok then PsRet false else
-  ps_wr h (dy_pkt r) (fun ok => PsRet ok))))).
+  ps_wr h (ps_enc_size (len (psd_pkt r))) (fun ok => if negb ok then PsRet false else
+  ps_wr h (psd_pkt r) (fun ok => PsRet ok))))).
 
 (* the copy loop of the two dynamic-resource updaters: a failed write only ends the loop
    ("break"), it does not take the failure exit.  true = loop left, None = out of fuel *)
@@ -218,7 +218,7 @@ Fixpoint ps_dyn_copy (fuel : nat) (ho hn : Z) (name : bytes) : ps_prog (option b
         match r with
         | None => PsRet (Some true)
         | Some r =>
-            if ps_beq name (dy_name r) then ps_dyn_copy f ho hn name
+            if ps_beq name (psd_name r) then ps_dyn_copy f ho hn name
             else ps_bind (ps_dyn_write hn r) (fun ok =>
                    if ok then ps_dyn_copy f ho hn name else PsRet (Some true))
         end)
@@ -226,7 +226,7 @@ Fixpoint ps_dyn_copy (fuel : nat) (ho hn : Z) (name : bytes) : ps_prog (option b
 
 (* coap_op_dyn_resource_added (after fix: the original is opened "r" and may be absent) *)
 Definition ps_dyn_added (fuel : nat) (a : ps_dyn) : ps_prog Z :=
-  ps_txn PS_DYN false 0 (fun ho hn => ps_dyn_copy fuel ho hn (dy_name a))
+  ps_txn PS_DYN false 0 (fun ho hn => ps_dyn_copy fuel ho hn (psd_name a))
          (fun hn => ps_dyn_write hn a).
 
 (* coap_op_dyn_resource_added as it was: fopen(file, "a"), then the same loop *)
@@ -239,7 +239,7 @@ Definition ps_dyn_added_old (fuel : nat) (a : ps_dyn) : ps_prog Z :=
       match hnew with
       | None => ps_fail_exit None horig (PsTmp PS_DYN)
       | Some hn =>
-          ps_bind (ps_dyn_copy fuel ho hn (dy_name a)) (fun c =>
+          ps_bind (ps_dyn_copy fuel ho hn (psd_name a)) (fun c =>
             match c with
             | None => PsRet PS_FUEL
             | Some _ =>
@@ -337,8 +337,8 @@ Fixpoint ps_obs_load_loop {S : Type} (la lt : Z) (fuel : nat) (ho hn : Z)
             ps_bind (step r st) (fun x =>
               match snd x with
               | Some key =>
-                  ps_bind (ps_obs_write hn (mkObs key (ob_proto r) (ob_listen r) (ob_tuple r)
-                                                  (ob_pkt r) (ob_osc r))) (fun ok =>
+                  ps_bind (ps_obs_write hn (mkObs key (pso_proto r) (pso_listen r) (pso_tuple r)
+                                                  (pso_pkt r) (pso_osc r))) (fun ok =>
                     if ok then ps_obs_load_loop la lt f ho hn step (fst x)
                     else PsRet (Some (fst x, false)))
               | None => ps_obs_load_loop la lt f ho hn step (fst x)
